@@ -167,6 +167,14 @@ def evaluate(ctx, cases, label):
         res.sample({"case": c, "V": len(pos), "E": len(edges), "plaquettes": len(r["plaquettes"]),
                     "first_plaquette": {k: r["plaquettes"][0][k] for k in ("vertices", "edges", "directions")} if r["plaquettes"] else None})
     res.extra["size_histogram"] = getattr(res, "hist_size", {})
+    # extraction cross-check: a sample of the driver's answers re-derived inside Coq (vm_compute)
+    if label.startswith("K("):
+        small = [(b, o) for b, o in zip(built, outs) if len(b[1][0]) <= 60 and "error" not in o]
+        rng = np.random.default_rng([ctx.seed, 99])
+        k = min(len(small), 12 if ctx.tier == "quick" else 120)
+        idx = rng.choice(len(small), size=k, replace=False) if k else []
+        samples = [(small[i][0][1][0], small[i][0][1][1], small[i][0][1][2], small[i][0][2], latmodel.parse_model(small[i][1], small[i][0][2])) for i in idx]
+        res.extra["extraction_crosscheck_goals_vm_compute"] = latmodel.coq_crosscheck(samples) if samples else 0
 
 
 def run(ctx):
